@@ -1189,7 +1189,9 @@ class ConnectionBase(object):
         for msg in msgs:
             if msg.callback:
                 callbacks.append(msg.callback)
-            if msg.retry != RetryMode.NONE:
+            # only best effort messages are resent on the keep alive interval
+            # RETRY_ON_TIMEOUT messages are resent by the RetrySender callback
+            if msg.retry == RetryMode.BEST_EFFORT:
                 self.pending_retry_msg[msg.seq] = msg
                 retries.append(msg.seq)
 
